@@ -199,4 +199,59 @@ theorem gen_canSend_cases {p : Policy} {c : Cfg} {amt t h : Nat} :
           · simp [a3, a4, a5]
           · simp [a3, a4, a5]
 
+/-! ### the switch's scan loop -/
+
+theorem linkFailure_none_iff (l : Cand) (i : Inputs) :
+    Gen.linkFailure l i = none ↔ l.eligible = true ∧ Gen.checkHtlcForward l.p l.c i = .accept := by
+  unfold Gen.linkFailure
+  cases he : l.eligible <;> simp
+  cases hv : Gen.checkHtlcForward l.p l.c i <;> simp
+
+theorem scan_foldl_dests (i : Inputs) (links : List Cand) (st : Gen.Scan) :
+    (links.foldl (Gen.scanStep i) st).dests
+      = st.dests ++ links.filter (fun l => (Gen.linkFailure l i).isNone) := by
+  induction links generalizing st with
+  | nil => simp
+  | cons x xs ih =>
+    rw [List.foldl_cons, ih]
+    unfold Gen.scanStep
+    cases h : Gen.linkFailure x i <;> simp [h]
+
+theorem scan_foldl_errs_other (i : Inputs) (links : List Cand) (st : Gen.Scan) (k : Nat)
+    (h : ∀ y ∈ links, y.scid ≠ k) : (links.foldl (Gen.scanStep i) st).errs k = st.errs k := by
+  induction links generalizing st with
+  | nil => rfl
+  | cons x xs ih =>
+    rw [List.foldl_cons, ih _ (fun y hy => h y (List.mem_cons_of_mem _ hy))]
+    unfold Gen.scanStep
+    have hx : x.scid ≠ k := h x (List.mem_cons_self ..)
+    cases hf : Gen.linkFailure x i <;> simp
+    intro hk; exact absurd hk.symm hx
+
+theorem scan_foldl_errs (i : Inputs) (links : List Cand) (st : Gen.Scan) (l : Cand) (f : SwFailure)
+    (hl : l ∈ links) (hnd : (links.map (·.scid)).Nodup) (hf : Gen.linkFailure l i = some f) :
+    (links.foldl (Gen.scanStep i) st).errs l.scid = some f := by
+  induction links generalizing st with
+  | nil => cases hl
+  | cons x xs ih =>
+    rw [List.map_cons, List.nodup_cons] at hnd
+    rw [List.foldl_cons]
+    rcases List.mem_cons.mp hl with rfl | hmem
+    · rw [scan_foldl_errs_other]
+      · unfold Gen.scanStep; simp [hf]
+      · intro y hy hk
+        exact hnd.1 (List.mem_map.mpr ⟨y, hy, hk⟩)
+    · exact ih _ hmem hnd.2
+
+theorem linkFailure_some_link (l : Cand) (i : Inputs) (v : Verdict) (he : l.eligible = true)
+    (hv : Gen.checkHtlcForward l.p l.c i = v) (hne : v ≠ .accept) :
+    Gen.linkFailure l i = some (.link v) := by
+  unfold Gen.linkFailure
+  rw [hv]
+  cases v <;> simp_all
+
+theorem scan_dests (links : List Cand) (i : Inputs) :
+    (Gen.scanLinks links i).dests = links.filter (fun l => (Gen.linkFailure l i).isNone) := by
+  unfold Gen.scanLinks; rw [scan_foldl_dests]; simp
+
 end LndModel.C09
